@@ -45,6 +45,8 @@ func main() {
 		os.Exit(f(*tier, *seed))
 	case "replay":
 		os.Exit(replay(os.Args[2]))
+	case "c13-child":
+		os.Exit(c13Child(os.Args[2:]))
 	case "crash-evidence":
 		// vmon crash-evidence <ID> --tier t --seed n <message> <violations>
 		id := os.Args[2]
